@@ -83,6 +83,7 @@ type RunRes struct {
 	Trace     []map[string]any `json:"trace,omitempty"`
 	Gor       int              `json:"goroutines"`
 	Note      string           `json:"note,omitempty"`
+	LetTypes  []map[string]any `json:"let_types,omitempty"`
 }
 
 // ---------------------------------------------------------------------------------------------
@@ -316,6 +317,11 @@ func limitsOf(req *RunReq) hmsrt.CoreLimits {
 func doRun(req *RunReq) (*RunRes, error) {
 	st := &hostState{req: req}
 	mods, res := analyze(req, st)
+	if req.WantTypes && mods != nil {
+		if m, ok := mods[req.Entry]; ok {
+			res.LetTypes = letTypes(m)
+		}
+	}
 	if !res.Accepted || req.Backend == "analyze" || mods == nil {
 		return res, nil
 	}
